@@ -57,7 +57,6 @@ def parseCond (j : Json) (ncomp : Nat) : Except String (Cond Rat) := do
       let dx ← getQ dxj
       pure (Cond.robin dx (coefFn vshape ncomp v vinf) (← get "c"))
     | none => do pure (.mixed (fun _ => false) (valFn vshape ncomp v) (← get "c"))
-  | "mixedInf" => pure (.mixed (fun _ => true) (fun _ => 0) (fun _ => 0))
   | "curvature" => do pure (.curvature (← get "v"))
   | "periodic" => pure (.periodic false)
   | "antiperiodic" => pure (.periodic true)
